@@ -223,6 +223,55 @@ def oracle(ctx, seeds=None):
                          "one %s step of a %s problem with %s differs from (diag(1/dt_cell) - theta J)^-1 R built from the implementation's own J and R: equation %d, relative %r" %
                          (name, model, 'a per-cell time-step array' if local else 'one time step', bad[0], bad[1]), rp)
                 break
+    # ---- gear on NONLINEAR problems: the BDF2 steps linearise about the current state:
+    #      (3/(2dt) I - J(Q1)) dQ = R(Q1) + (Q1 - Q0)/(2dt)   with J, R the implementation's own Jacobian and residual at Q1
+    for i in range(ctx.n(6, 60)):
+        model = str(rng.choice(['burgers', 'euler']))
+        cfg = cfg1d.rand_config(rng, model=model, n=int(rng.integers(2, 6)), smooth=True, per=True, units=False,
+                                scheme=cfg1d.rand_scheme(rng, ['extrapol1', 'extrapol2']), flux=None if model == 'burgers' else 'hlle')
+        if model == 'burgers':
+            cfg['prim'] = [[float(x) for x in 2.0 + 0.5 * rng.normal(size=cfg['n'])]]
+        ok, b_ = impl.guarded(cfg1d.build, cfg)
+        if not ok:
+            continue
+        mod, msh, disc, f = b_
+        cfl = float(rng.choice([1.0, 3.0]))
+        def run():
+            dt = float(np.min(disc.calc_timestep(f, cfl)))
+            s = impl.integ.gear(msh, disc)
+            g0 = f.copy(); s.step(g0, dt)                      # Crank-Nicolson start
+            Q0 = [np.array(x, dtype=float).copy() for x in f.data]; Q1 = [np.array(x, dtype=float).copy() for x in g0.data]
+            g1 = g0.copy(); s.step(g1, dt)                     # first BDF2 step
+            Q2 = [np.array(x, dtype=float).copy() for x in g1.data]
+            J = np.array(impl.integ.implicit(msh, disc).calc_jacobian(g0.copy()), dtype=float).copy()
+            R = [np.array(x, dtype=float).copy() for x in disc.rhs(g0.copy())]
+            return dt, Q0, Q1, Q2, J, R
+        ok, out = impl.guarded(run)
+        res.case(('gear-nonlinear', model, cfg['scheme'][0]))
+        rp = dict(cfg=cfg, cfl=cfl, kind='gear-nonlinear')
+        if not ok:
+            if 'Singular matrix' in str(out):
+                res.count('skipped-singular-implicit-system'); continue
+            res.fail('gear:nonlinear-raised', out, rp); continue
+        dt, Q0, Q1, Q2, J, R = out
+        neq, n = mod.neq, cfg['n']
+        if not all(np.all(np.isfinite(x)) for x in Q2 + R) or not np.all(np.isfinite(J)):
+            res.count('skipped-inadmissible'); continue
+        rhsv = np.zeros(neq * n)
+        for q_ in range(neq):
+            rhsv[q_::neq] = R[q_] + (Q1[q_] - Q0[q_]) / (2 * dt)
+        Mx = 1.5 / dt * np.eye(neq * n) - J
+        cnd = np.linalg.cond(Mx)
+        if not np.isfinite(cnd) or cnd > 1e10:
+            res.count('skipped-ill-conditioned'); continue
+        dQ = np.linalg.solve(Mx, rhsv)
+        for q_ in range(neq):
+            exp = Q1[q_] + dQ[q_::neq]
+            sc = float(np.max(np.abs(Q1[q_]))) + float(np.max(np.abs(dQ[q_::neq]))) + 1e-300
+            if not np.max(np.abs(Q2[q_] - exp)) <= 1e-8 * max(cnd, 1.0) * sc:
+                res.fail('gear:bdf2-nonlinear', "second gear step of a %s problem differs from the BDF2 system linearised about the CURRENT state (the implementation's own Jacobian and residual there): equation %d, relative %r" %
+                         (model, q_, float(np.max(np.abs(Q2[q_] - exp))) / sc), rp)
+                break
     # ---- Jacobian on nonlinear problems vs central differences
     for i in range(ctx.n(16, 200)):
         model = str(rng.choice(['burgers', 'euler', 'sw']))
